@@ -27,36 +27,81 @@ from vf import common, irgen, llsym, pystubs, hutil
 from vf.llsym import bv, simp, mask, is_c
 
 REPLAY = r'''
-# Replay for C29 on the real build: create/drop/call history crossing page growth; every live callback
-# must have its own address and call its own function.
+# Replay for C29 on the real build: directed and random create/drop/call histories crossing the closure
+# page-growth boundaries and draining/refilling the free list.  Every live callback must keep its own address,
+# the machine code libffi wrote into it, and its own Python function.  Runs in a child process so that
+# a crash (jump through a clobbered trampoline) is reported as a violation.
+import sys, subprocess
+CHILD = r"""
 import sys, gc, random
 import cffi
 ffi = cffi.FFI()
 rnd = random.Random(%d)
 live = {}
-bad = []
-n = 0
-for step in range(6000):
-    op = rnd.random()
-    if op < 0.55 or not live:
-        n += 1
-        def f(x, k=n): return x + k
-        cb = ffi.callback('int(int)', f)
-        live[n] = cb
-    elif op < 0.85:
-        k = rnd.choice(list(live)); del live[k]
-    else:
-        k = rnd.choice(list(live))
-        if live[k](1000) != 1000 + k:
-            bad.append('callback %%d returned %%d' %% (k, live[k](1000)))
-    if step %% 500 == 0:
+n = [0]
+def create():
+    n[0] += 1
+    k = n[0]
+    cb = ffi.callback('int(int)', lambda x, k=k: x + k)
+    live[k] = (cb, bytes(ffi.buffer(ffi.cast('char *', cb), 16)))
+def check(full=False):
+    addrs = {}
+    for k, (cb, code) in live.items():
+        a = int(ffi.cast('uintptr_t', cb))
+        if a in addrs: return 'callbacks %%d and %%d are both alive at %%#x' %% (addrs[a], k, a)
+        addrs[a] = k
+        if bytes(ffi.buffer(ffi.cast('char *', cb), 16)) != code:
+            return 'closure of live callback %%d was overwritten' %% k
+    ks = list(live) if full else rnd.sample(list(live), min(len(live), 5))
+    for k in ks:
+        if live[k][0](1000) != 1000 + k: return 'callback %%d invoked another function' %% k
+    return None
+def run():
+    for i in range(3): create()
+    for step in range(400):                         # +1 per round with a drop right after each create:
+        create()                                    # a drop happens at every moment the free list is empty
+        e = check()
+        if e: return e
+        del live[rnd.choice(sorted(live)[:-1])]
+        e = check()
+        if e: return e
+        create()
+    for k in list(live)[:-1]: del live[k]
+    for phase in range(4):
+        for i in range(200):                       # fill: crosses several page-growth boundaries
+            create()
+            if i %% 16 == 0:
+                e = check()
+                if e: return e
+        e = check(True)
+        if e: return e
+        for k in list(live)[::2]: del live[k]       # drop every other one
         gc.collect()
-        addrs = [int(ffi.cast('uintptr_t', c)) for c in live.values()]
-        if len(set(addrs)) != len(addrs): bad.append('two live callbacks share an address')
-for k, c in live.items():
-    if c(5) != 5 + k: bad.append('callback %%d is bound to another function' %% k)
-for b in bad[:5]: print('VIOLATED:', b)
-sys.exit(1 if bad else 0)
+        e = check(True)
+        if e: return e
+        for k in list(live)[:-1]: del live[k]       # drain to a single live callback, then refill
+        for i in range(120):
+            create()
+            e = check()
+            if e: return e
+    for step in range(3000):                        # random tail
+        op = rnd.random()
+        if op < 0.5 or len(live) < 2: create()
+        else: del live[rnd.choice(list(live)[:-1])]
+        if step %% 8 == 0:
+            e = check()
+            if e: return e
+    return check(True)
+e = run()
+if e: print('VIOLATED:', e); sys.exit(1)
+sys.exit(0)
+"""
+r = subprocess.run([sys.executable, '-c', CHILD], stdout=subprocess.PIPE, stderr=subprocess.STDOUT)
+out = r.stdout.decode('utf-8', 'replace')
+if r.returncode < 0:
+    print('VIOLATED: the process died with signal %%d during the callback history' %% -r.returncode); sys.exit(1)
+print(out[-2000:])
+sys.exit(1 if (r.returncode == 1 and 'VIOLATED' in out) else (0 if r.returncode == 0 else 3))
 '''
 
 
@@ -137,6 +182,7 @@ def step_worker(args):
     chk = hutil.sub_check(prop, tier)
     mod = irgen.backend()
     label = '%s:%d-blocks' % (kind, M)
+    replay = make_replay(chk)
     ex = llsym.Executor(mod, pystubs.stubs(), loop_bound=8, solver_timeout_ms=120000)
 
     def h(ex):
@@ -148,15 +194,15 @@ def step_worker(args):
             r = ex.call('cffi_closure_alloc', [])
             r = bv(r, 64)
             hutil.witness(chk, ex, label)
-            hutil.discharge(chk, ex, label + ':returned-block-was-free', H.in_free(r, H.head, H.nxt), inputs)
-            hutil.discharge(chk, ex, label + ':returned-block-is-not-a-live-closure', z3.And(H.is_block(r), z3.Not(H.live_at(r, H.live))), inputs)
+            hutil.discharge(chk, ex, label + ':returned-block-was-free', H.in_free(r, H.head, H.nxt), inputs, replay=replay)
+            hutil.discharge(chk, ex, label + ':returned-block-is-not-a-live-closure', z3.And(H.is_block(r), z3.Not(H.live_at(r, H.live))), inputs, replay=replay)
             head2, nxt2 = H.now()
             live2 = [z3.Or(l, r == a) for l, a in zip(H.live, H.addr)]
-            hutil.discharge(chk, ex, label + ':invariant-kept', H.inv(head2, nxt2, live2), inputs)
+            hutil.discharge(chk, ex, label + ':invariant-kept', H.inv(head2, nxt2, live2), inputs, replay=replay)
             same = z3.And(*[H.in_free(a, head2, nxt2) == z3.And(H.in_free(a, H.head, H.nxt), a != r) for a in H.addr])
-            hutil.discharge(chk, ex, label + ':free-set-shrinks-by-exactly-that-block', same, inputs)
+            hutil.discharge(chk, ex, label + ':free-set-shrinks-by-exactly-that-block', same, inputs, replay=replay)
             frame = z3.And(*[H.block_bytes(i) == H.content[i] for i in range(M)])
-            hutil.discharge(chk, ex, label + ':no-block-is-written', frame, inputs)
+            hutil.discharge(chk, ex, label + ':no-block-is-written', frame, inputs, replay=replay)
         else:
             p = z3.BitVec('p', 64)
             inputs['p'] = p
@@ -165,14 +211,14 @@ def step_worker(args):
             hutil.witness(chk, ex, label)
             head2, nxt2 = H.now()
             live2 = [z3.And(l, p != a) for l, a in zip(H.live, H.addr)]
-            hutil.discharge(chk, ex, label + ':invariant-kept', H.inv(head2, nxt2, live2), inputs)
+            hutil.discharge(chk, ex, label + ':invariant-kept', H.inv(head2, nxt2, live2), inputs, replay=replay)
             same = z3.And(*[H.in_free(a, head2, nxt2) == z3.Or(H.in_free(a, H.head, H.nxt), a == p) for a in H.addr])
-            hutil.discharge(chk, ex, label + ':free-set-grows-by-exactly-that-block', same, inputs)
+            hutil.discharge(chk, ex, label + ':free-set-grows-by-exactly-that-block', same, inputs, replay=replay)
             frame = []
             for i in range(M):
                 now, before = H.block_bytes(i), H.content[i]
                 frame.append(z3.If(p == H.addr[i], z3.Extract(8 * H.bs - 1, 64, now) == z3.Extract(8 * H.bs - 1, 64, before), now == before))
-            hutil.discharge(chk, ex, label + ':only-the-freed-block\'s-link-word-is-written', z3.And(*frame), inputs)
+            hutil.discharge(chk, ex, label + ':only-the-freed-block\'s-link-word-is-written', z3.And(*frame), inputs, replay=replay)
 
     def on_oob(ex2, what_, model):
         chk.report_failure('%s: access outside the chunk: %s' % (label, what_), {}, None, None)
